@@ -23,6 +23,13 @@ CLAIMS = {
               "per source and LYC. The real PPU runs with IF read and cleared after every machine cycle for each single source x LYC values over whole frames and under on/off schedules; TLC validates the request bits of every cycle."),
         design="5/C14", technique="TLA+ request conditions + TLC MC per source/LYC; TLC trace validation of per-cycle IF observations",
         note="Several sources at once, LYC changes while on, the OAM source on line 144 / at switch-on are not judged."),
+    "C15": dict(
+        category="model_checking",
+        text=("Render.tla transcribes the DMG pixel composition (tile colour ids, both maps and addressing modes, scroll, window, objects in OAM order with flips, priority and palettes, clipping at all edges) as pure operators; "
+              "TLC checks it on micro-scenes against the statement's clauses (background only, front object wins, background-priority object only over colour 0, clipped not hidden, window placement). Random scenes inside the precondition are "
+              "written with the LCD off, read back, rendered by the real PPU for one frame, and TLC validates sampled (thorough: all) pixels against Render!Pixel; shades are calibrated on the same build without depending on the bit-plane order."),
+        design="5/C15", technique="TLA+ transcription of the composition function + TLC checks on micro-scenes; bulk TLC validation of rendered pixels",
+        note="Data-path function: confidence in the transcription comes from the micro-scene invariants and agreement over thousands of pixels; 8x16 objects, >10 objects per line, unsorted OAM and mid-frame changes are outside the precondition."),
     "C16": dict(
         category="model_checking",
         text=("DMA.tla: a (re)startable transfer that completes at some cycle within a bound, blocks OAM reads meanwhile and leaves each OAM byte with a value its source byte held during the transfer; TLC checks the clauses on a scaled "
